@@ -6,6 +6,8 @@
 -/
 import Sigverif.Model.Mask
 import Sigverif.Model.Bind
+import Sigverif.Model.Modifiers
+import Sigverif.Model.Support
 namespace SV.Proto
 
 def splitNE (s : String) (sep : String) : List String :=
@@ -113,6 +115,31 @@ def showOptParam : Option Param → String
 def showSorted (s : Sorted) : String :=
   s!"ok {showParams s.pos} {showParams s.pok} {showOptParam s.va} {showParams s.kwo} {showOptParam s.vk} {showSrcs s.src} {showPairs s.depths ";"}"
 
+def sortPairs (l : List (Nat × Nat)) : List (Nat × Nat) :=
+  (l.toArray.qsort (fun a b => a.1 < b.1 || (a.1 = b.1 && a.2 < b.2))).toList
+
+def showNatList (l : List Nat) : String := showList (l.map toString) "."
+
+def showBound : Option Bound → String
+  | none => "typeerror"
+  | some b =>
+    let va := match b.va with | none => "-" | some l => showNatList l
+    let vk := match b.vk with | none => "-" | some l => showPairs (sortPairs l) "."
+    s!"ok {showPairs (sortPairs b.named) "."} {va} {vk}"
+
+def showKwopos (l : List (Nat × Param)) : String :=
+  showList (l.map (fun e => s!"{e.1}={e.2.name}")) "."
+
+def showNames : Except Err (List Nat) → String
+  | .ok l => "ok " ++ showNatList l
+  | .error e => "err " ++ showErr e
+
+def lexLt : List Nat → List Nat → Bool
+  | [], [] => false
+  | [], _ :: _ => true
+  | _ :: _, [] => false
+  | a :: as, b :: bs => a < b || (a = b && lexLt as bs)
+
 /-- one request line → one answer line -/
 def handle (line : String) : String :=
   let toks := (line.splitOn " ").filter (· ≠ "")
@@ -151,6 +178,45 @@ def handle (line : String) : String :=
       if rest ≠ [] then none else
       some (showRes (forwards o i (← n.toNat?) (← parseNats nm ".")
         (bit f 0) (bit f 1) (bit f 2) (bit f 3) (bit f 4)))
+    | "bindcall" :: a :: k :: p :: [] => do
+      some (showBound (bindCall (← parseParams p) (← parseNats a ".") (← parsePairs k ".")))
+    | "bindcallsig" :: a :: k :: p :: [] => do
+      some (showBound (bindCallsig (← parseParams p) (← parseNats a ".") (← parsePairs k ".")))
+    | "prepare" :: pp :: ww :: p :: [] => do
+      some (match prepare (← parseParams p) (← parseNats pp ".") (← parseNats ww ".") with
+        | .ok (ps, kp) => s!"ok {showParams ps} {showKwopos kp}"
+        | .error e => "err " ++ showErr e)
+    | "deccall" :: pp :: ww :: a :: k :: p :: [] => do
+      let F ← parseParams p
+      let P ← parseNats pp "."
+      let W ← parseNats ww "."
+      let args ← parseNats a "."
+      let kws ← parsePairs k "."
+      some (match prepare F P W with
+        | .ok (_, kp) => showBound (decoratedCall F P kp args kws)
+        | .error e => "err " ++ showErr e)
+    | "startnames" :: st :: ex :: p :: [] => do
+      let F ← parseParams p
+      let s0 ← st.toNat?
+      let e0 ← parseNats ex "."
+      some (showNames (do let w ← startNames F s0 e0; let _ ← prepare F [] w; pure w))
+    | "endnames" :: st :: ex :: p :: [] => do
+      let F ← parseParams p
+      let s0 ← st.toNat?
+      let e0 ← parseNats ex "."
+      some (showNames (do let w ← endNames F s0 e0; let _ ← prepare F w []; pure w))
+    | "autonames" :: ex :: p :: [] => do
+      let F ← parseParams p
+      let e0 ← parseNats ex "."
+      some (showNames (do let w ← autoNames F e0; let _ ← prepare F [] w; pure w))
+    | "annotate" :: an :: p :: [] => do
+      some (match annotate (← parseParams p) (← parsePairs an ".") with
+        | .ok ps => "ok " ++ showParams ps
+        | .error e => "err " ++ showErr e)
+    | "makeup" :: ex :: p :: [] => do
+      let cs := makeUpCallsigs (← parseParams p) (← parseNats ex ".")
+      let strs := cs.map (fun c => s!"{showNatList c.1}|{showNatList ((c.2.toArray.qsort (· < ·)).toList)}")
+      some (s!"ok {cs.length} " ++ ";".intercalate ((strs.toArray.qsort (· < ·)).toList))
     | _ => none
   r.getD "bad-op"
 
